@@ -270,3 +270,44 @@ func verifHarness_C04_write_in_dial_callback() {
 	}
 	verifAssert(false, "witness")
 }
+
+// a long queue (ten entries that cannot be merged: one-byte files behind a
+// buffered byte) and a peer that makes room for all of it at once: with
+// edge-triggered polling that is one writable edge, and the whole queue has to
+// go out on it.
+func verifHarness_C04_long_queue_one_writable_edge() {
+	verifBound("queued_entries", 10)
+	verifBound("preemptions", 1)
+	mode := verifChoose("mode", 3)
+	vkReset()
+	vk.regime = vkBuffered
+	MaxOpenFiles = 64
+	g := NewEngine(verifEngineConf(mode))
+	verifSched(true, 1)
+	if err := g.Start(); err != nil {
+		verifFail("engine-start-failed", "")
+		return
+	}
+	f := vk.newFd(vkSockStream)
+	f.sendSpace = 1
+	conn := &Conn{fd: f.fd, typ: ConnTypeTCP}
+	if err := g.pollers[0].addConn(conn); err != nil {
+		verifFail("addconn-failed", "")
+		return
+	}
+	payload := verifBytes("payload", 11)
+	n, err := conn.Write(payload[:2]) // one byte goes out, one is queued
+	verifAssertD(err == nil && n == 2, "write-accepted", "long-queue")
+	for i := 2; i < 11; i++ {
+		k, err := conn.Sendfile(vkNewFile(payload[i:i+1], 0), 0)
+		verifAssertD(err == nil && k == 1, "write-accepted", "long-queue/file")
+	}
+	verifJoin()
+	// the peer reads everything that is there and has room for all the rest
+	f.peerDrain(100)
+	verifJoin()
+	name := verifModeName(mode)
+	verifAssertD(len(conn.writeList) == 0, "backlog-drains-when-peer-makes-room", name+"/long-queue")
+	verifAssertD(len(f.wire) == 11 && verifEqBytes(f.wire, payload), "accepted-bytes-delivered", name+"/long-queue")
+	verifAssert(false, "witness")
+}
